@@ -58,6 +58,8 @@ pub struct EvDesc {
 #[derive(Clone, Debug, PartialEq, Eq)]
 pub enum Out {
     Effect(EffectDesc),
+    /// an effect that bypasses the command's output channel (old capability API used from a command task)
+    CapEffect(EffectDesc),
     Event(EvDesc),
 }
 
@@ -625,12 +627,26 @@ impl Seq {
             }
             let _ = depth;
             let stmt = frame.stmts[frame.pc].clone();
+            let is_cap = matches!(stmt, Stmt::CapRequest(_));
             match stmt {
-                Stmt::Request(leaf) => {
+                Stmt::Request(leaf) | Stmt::CapRequest(leaf) => {
                     if frame.blk.is_none() {
                         let key = (leaf.site, self.acc);
                         frame.blk = Some(Blk::Req(key));
-                        g.emit_req(key, leaf.op, Arity::Once, outs, self.legacy);
+                        let through_caps = self.legacy || (is_cap && g.legacy_supported);
+                        if through_caps && !self.legacy {
+                            // goes to the shell through the capability channel, not through the
+                            // command's outputs: no mapping of an enclosing command applies to it
+                            let mut tmp = vec![];
+                            g.emit_req(key, leaf.op, Arity::Once, &mut tmp, true);
+                            for o in tmp {
+                                if let Out::Effect(e) = o {
+                                    outs.push(Out::CapEffect(e));
+                                }
+                            }
+                        } else {
+                            g.emit_req(key, leaf.op, Arity::Once, outs, self.legacy);
+                        }
                     }
                     let Some(Blk::Req(key)) = frame.blk else { unreachable!() };
                     match g.take_value(key) {
@@ -779,11 +795,28 @@ impl Seq {
                         frame.blk = Some(Blk::Select(bs));
                     }
                     let Some(Blk::Select(bs)) = &mut frame.blk else { unreachable!() };
+                    // which branches wait on something inside the program (a self-wake, another task
+                    // finishing, a channel) rather than on the shell
+                    let internal: Vec<bool> = bs
+                        .iter()
+                        .map(|b| {
+                            let mut any = false;
+                            b.seq.visit_waits(g, false, &mut |w| any |= matches!(w.kind, WaitKind::SelfWake | WaitKind::Join | WaitKind::Chan));
+                            any
+                        })
+                        .collect();
                     let mut winner = None;
                     for (i, b) in bs.iter_mut().enumerate() {
                         if b.seq.run(g, outs, spawned) {
                             winner = Some(i);
                             break;
+                        }
+                    }
+                    if let Some(i) = winner {
+                        if internal[i] && internal.iter().enumerate().any(|(j, x)| j != i && *x) {
+                            // two branches race on events inside the program: which comes first depends
+                            // on the order in which the executor happens to poll the tasks involved
+                            g.ambiguous = Some("select decided between branches woken from inside the program".into());
                         }
                     }
                     match winner {
@@ -1560,10 +1593,12 @@ impl CmdSt {
             self.finished = true;
             return true;
         }
-        if outs.len() > outs_before && g.aborted_cmds.contains(&self.uid) {
-            // aborted by a task during this very poll, which also produced output: whoever hosts
-            // the command (a `then`, `all`, a mapping, the core) takes the output and polls it
-            // again at once, and that poll notices the abort
+        if g.aborted_cmds.contains(&self.uid) {
+            // aborted by one of its own tasks (or a task of a command nested in it) during this very
+            // poll: "an aborted command reports done as soon as its already-emitted outputs have been
+            // taken", and it does so wherever it is hosted - a directly held command says done in this
+            // step, so a hosted one ends in this poll of its host too
+            let _ = outs_before;
             g.immediate_reaps += 1;
             return self.run_aborted(g, true);
         }
@@ -1727,7 +1762,11 @@ impl Model {
             return Outcome::Unknown;
         }
         match r.arity {
-            Arity::Never => Outcome::Rejected,
+            Arity::Never => {
+                // (answered all the same: the bridge may forget the entry now)
+                r.resolved = true;
+                Outcome::Rejected
+            }
             Arity::Once => {
                 if r.resolved {
                     Outcome::Rejected
@@ -1844,7 +1883,7 @@ impl Model {
             }
             for o in outs {
                 match o {
-                    Out::Effect(e) => effects.push(e),
+                    Out::Effect(e) | Out::CapEffect(e) => effects.push(e),
                     Out::Event(ev) => queued.push_back(ev),
                 }
             }
